@@ -24,10 +24,12 @@ def add(*a, **k):
 
 # ------------------------------------------------------------------ C07
 add("m07a", ["C07"], (W, """            await self.queue.put(1)
+            release = True
             try:
                 job._running = True                     # pylint: disable=w0212
 """, """            job._running = True                         # pylint: disable=w0212
             await self.queue.put(1)
+            release = True
             try:
 """), rules=["R07.1"])
 add("m07c", ["C07"], (W, "asyncio.Queue(maxsize=jobs_window)", "asyncio.Queue(maxsize=jobs_window + 1)"),
@@ -133,18 +135,27 @@ add("b06", ["C02", "C09", "C04"], (P, "if nb_jobs_done == nb_jobs_finite:", "if 
     expect='silent')
 
 # ------------------------------------------------------------------ C03 / C06 window
-add("m03a", ["C03", "C06"], (W, """            try:
+add("m03a", ["C03", "C06"], (W, """            release = True
+            try:
                 job._running = True                     # pylint: disable=w0212
                 value = await job.co_run()
+            except Exception:
+                # when a critical job fails, the scheduler is about to abort;
+                # keep the slot, so that no job queued behind this one can
+                # start before the scheduler has cancelled it
+                release = not job.is_critical()
+                raise
             finally:
                 # release slot in the queue, whatever the outcome of the job
                 # (it may have raised, or been cancelled)
-                await self.queue.get()
+                if release:
+                    await self.queue.get()
 """, """            job._running = True                         # pylint: disable=w0212
             value = await job.co_run()
             await self.queue.get()
 """), rules=["R03.1", "R06.2"])
-add("m03b", ["C03", "C06"], (W, """                await self.queue.get()
+add("m03b", ["C03", "C06"], (W, """                if release:
+                    await self.queue.get()
 """, """                pass
 """), rules=["R03.1", "R06.2"])
 add("m03c", ["C03", "C06", "C12"], (P, """            for done_task in done:
@@ -153,28 +164,37 @@ add("m03c", ["C03", "C06", "C12"], (P, """            for done_task in done:
 add("m03d", ["C03", "C01", "C14"], (J, """            and self._task._state == asyncio.futures._FINISHED""",
                                     """            and self._task._state == asyncio.futures._FINISHED \\
             and not self._task._exception"""), rules=["R03.2", "R01.3", "R14.1"])
-add("m03e", ["C03", "C06"], (W, """            finally:
-                # release slot in the queue, whatever the outcome of the job
-                # (it may have raised, or been cancelled)
-                await self.queue.get()
-""", """            except asyncio.CancelledError:
-                raise
-            finally:
-                if not job.raised_exception():
-                    await self.queue.get()
-"""), rules=["R03.1", "R06.2"], note="release made conditional")
+add("m03e", ["C03", "C06"], (W, """                release = not job.is_critical()
+                raise""", """                release = False
+                raise"""), rules=["R03.1", "R06.2"], note="slot kept for every failing job, critical or not")
+add("m05j", ["C05"], (W, """                release = not job.is_critical()
+                raise""", """                release = True
+                raise"""), rules=["R05.6"], note="slot handed over even when a critical job fails")
+add("m05k", ["C05", "C03"], (W, """                release = not job.is_critical()
+                raise""", """                release = job.is_critical()
+                raise"""), rules=["R05.6", "R03.1"], note="polarity slip")
 add("m07g", ["C07"], (W, """            await self.queue.put(1)
+            release = True
             try:
-""", """            try:
+""", """            release = True
+            try:
                 await self.queue.put(1)
 """), rules=["R07.1"])
-add("m07b", ["C07"], (W, """            try:
+add("m07b", ["C07"], (W, """            release = True
+            try:
                 job._running = True                     # pylint: disable=w0212
                 value = await job.co_run()
+            except Exception:
+                # when a critical job fails, the scheduler is about to abort;
+                # keep the slot, so that no job queued behind this one can
+                # start before the scheduler has cancelled it
+                release = not job.is_critical()
+                raise
             finally:
                 # release slot in the queue, whatever the outcome of the job
                 # (it may have raised, or been cancelled)
-                await self.queue.get()
+                if release:
+                    await self.queue.get()
 """, """            await self.queue.get()
             job._running = True                         # pylint: disable=w0212
             value = await job.co_run()
@@ -462,11 +482,9 @@ add("m04d", ["C04", "C10"], (S, """        if self.failed_time_out():
         if self.failed_time_out():"""), rules=["R04.3", "R10.3"])
 add("m04e", ["C04", "C10"], (S, "                    raise exc\n", "                    raise type(exc)(*exc.args)\n"),
     rules=["R04.3", "R10.3"])
-add("m04f", ["C04", "C14", "C10"], (W, """            finally:
-                # release slot""", """            except Exception as exc:
-                raise RuntimeError(str(exc))
-            finally:
-                # release slot"""), rules=["R04.4", "R14.3", "R10.3i"])
+add("m04f", ["C04", "C14", "C10"], (W, """                release = not job.is_critical()
+                raise""", """                release = not job.is_critical()
+                raise RuntimeError("job failed")"""), rules=["R04.4", "R14.3", "R10.3i"])
 add("m04g", ["C04"], (P, """        if self._failed_timeout is not False:
             return "TIMED OUT after {}s".format(self._failed_timeout)
         if self._failed_critical:
@@ -491,14 +509,10 @@ add("m04k", ["C04"], (P, """                await self.co_shutdown()
 add("m10c", ["C10"], (S, """        AbstractJob.__init__(self, **kwds)
 """, """        self.kwds = kwds
 """), rules=["R10.1"])
-add("m14a", ["C14"], (W, """            finally:
-                # release slot in the queue, whatever the outcome of the job
-                # (it may have raised, or been cancelled)
-                await self.queue.get()
-""", """            finally:
-                # release slot in the queue, whatever the outcome of the job
-                # (it may have raised, or been cancelled)
-                await self.queue.get()
+add("m14a", ["C14"], (W, """                if release:
+                    await self.queue.get()
+""", """                if release:
+                    await self.queue.get()
                 job._running = False
 """), rules=["R14.2"])
 add("m14b", ["C14", "C01", "C03"], (J, "and self._task._state == asyncio.futures._FINISHED", "and self._task._state != 'PENDING'"),
